@@ -25,12 +25,12 @@ pub struct Stage {
 }
 
 pub fn stages_for(property: &str, tier: &str) -> Vec<Stage> {
-    let m: u64 = if tier == "thorough" { 16 } else { 1 };
+    let m: u64 = if tier == "thorough" { 10 } else { 1 };
     match property {
         "C16" => vec![
-            Stage { name: "histories", focus: Focus::Histories, faults: false, runs: 3000 * m, stream: 1 },
-            Stage { name: "histories+faults", focus: Focus::Histories, faults: true, runs: 2000 * m, stream: 2 },
-            Stage { name: "fixtures", focus: Focus::Fixtures, faults: false, runs: 500 * m, stream: 8 },
+            Stage { name: "histories", focus: Focus::Histories, faults: false, runs: 5000 * m, stream: 1 },
+            Stage { name: "histories+faults", focus: Focus::Histories, faults: true, runs: 3500 * m, stream: 2 },
+            Stage { name: "fixtures", focus: Focus::Fixtures, faults: false, runs: 800 * m, stream: 8 },
         ],
         "C01" => vec![
             Stage { name: "compile", focus: Focus::Compile, faults: false, runs: 3000 * m, stream: 3 },
@@ -38,16 +38,16 @@ pub fn stages_for(property: &str, tier: &str) -> Vec<Stage> {
             Stage { name: "fixtures", focus: Focus::Fixtures, faults: false, runs: 500 * m, stream: 9 },
         ],
         "C06" => vec![
-            Stage { name: "defaults", focus: Focus::Defaults, faults: false, runs: 4000 * m, stream: 5 },
-            Stage { name: "defaults+faults", focus: Focus::Defaults, faults: true, runs: 2000 * m, stream: 12 },
+            Stage { name: "defaults", focus: Focus::Defaults, faults: false, runs: 12000 * m, stream: 5 },
+            Stage { name: "defaults+faults", focus: Focus::Defaults, faults: true, runs: 5000 * m, stream: 12 },
         ],
         "C07" => vec![
-            Stage { name: "cycles", focus: Focus::Cycles, faults: false, runs: 4000 * m, stream: 6 },
+            Stage { name: "cycles", focus: Focus::Cycles, faults: false, runs: 8000 * m, stream: 6 },
         ],
         "C12" => {
             let mut v = vec![
-                Stage { name: "hashkeys", focus: Focus::Determinism, faults: false, runs: 2500 * m, stream: 7 },
-                Stage { name: "fixtures", focus: Focus::Fixtures, faults: false, runs: 400 * m, stream: 10 },
+                Stage { name: "hashkeys", focus: Focus::Determinism, faults: false, runs: 4500 * m, stream: 7 },
+                Stage { name: "fixtures", focus: Focus::Fixtures, faults: false, runs: 700 * m, stream: 10 },
             ];
             if tier == "thorough" {
                 // github.json and vega.json (about 0.5 s per simulated process)
